@@ -639,7 +639,9 @@ var badValues = []badValue{
 	{"int-becomes-float", func() models.Fields { return models.Fields{"v": 2.5, "f": int64(7), "s": "abcdefghijkl"} }, models.Tags{"t": "a"}},
 	{"missing-fields", func() models.Fields { return models.Fields{"other": 1.0} }, models.Tags{"t": "a"}},
 	{"nil-field", func() models.Fields { return models.Fields{"v": nil, "f": nil, "s": nil} }, models.Tags{"t": "a"}},
-	{"duration-field", func() models.Fields { return models.Fields{"v": time.Second, "f": time.Duration(0), "s": "abcdefghijkl"} }, models.Tags{"t": "a"}},
+	{"duration-field", func() models.Fields {
+		return models.Fields{"v": time.Second, "f": time.Duration(0), "s": "abcdefghijkl"}
+	}, models.Tags{"t": "a"}},
 	{"empty-tags", func() models.Fields { return good(1) }, models.Tags{}},
 	{"nil-tags", func() models.Fields { return good(1) }, nil},
 	{"huge-string", func() models.Fields {
